@@ -42,6 +42,12 @@ type embOuter struct {
 // a map whose key type is a named string type
 type namedKey string
 
+// a struct that embeds a pointer: with the pointer nil, the promoted methods (Year, Zone, ...) have nothing to run on
+type embTime struct {
+	*time.Time
+	Label string
+}
+
 // a named string type as a value
 type namedString string
 
@@ -185,6 +191,8 @@ func Universe() []UVal {
 		rawU("map[any]any", func() any { return map[any]any{"x": 1, 2: "two", 2.5: []any{1}} }),
 		rawU("map[NaN]", func() any { return map[float64]any{math.NaN(): "x", 1.5: "y"} }),
 		rawU("map[any]{NaN}", func() any { return map[any]any{math.NaN(): 1, "k": float32(math.NaN())} }),
+		rawU("time{year 12000}", func() any { return time.Date(12000, 1, 1, 0, 0, 0, 0, time.UTC) }),
+		rawU("struct{nil-embedded *time}", func() any { return embTime{} }),
 		rawU("*time", func() any { t := time.Date(2024, 2, 29, 13, 14, 15, 0, time.FixedZone("X", 3600)); return &t }),
 		rawU("struct", func() any { return dataStruct{Title: "T", Count: 3, Tags: []string{"x", "y"}, Named: "nm", inner: 1} }),
 		rawU("*struct", func() any { return &dataStruct{Title: "P", Count: 4} }),
